@@ -515,6 +515,10 @@ impl<'a> GeneratorState<'a> {
             },
             _ => return Err(self.compiler_state.syntax_error("Bad left value for shift operation", pos))
         }
+        if high_byte {
+            // What follows shifts the low byte: it is not the high byte of the result
+            return Err(self.compiler_state.syntax_error("Shift in a 16 bits expression (shifts by 8 only). Please use an intermediate variable", pos));
+        }
         self.acc_in_use = true;
         let operation = match op {
             Operation::Brs(_) => {
